@@ -28,6 +28,7 @@ func (k *c01K) intOps() {
 		{"min max builtins", "r = min(a, b, 1)*10 + max(a, b)\nobss(min(\"b\", \"ab\"[:a+1]))\n"},
 		{"most negative value division", "x := int8(-128)\ny := int8(a)\nif y != 0 {\n\tr = int(x / y)\n}\nr = r*1000 + int(x%int8(b*2-1))\n"},
 		{"boolean operators and short circuit", "t := func(n int, v bool) bool {\n\tobs(n)\n\treturn v\n}\nif t(1, a > 0) && t(2, b > 0) || t(3, a == b) {\n\tr = 1\n}\nif !(t(4, a < 0) || t(5, b < 0)) && t(6, true) {\n\tr += 10\n}\nx := t(7, a > 1) || t(8, b > 1)\nif x {\n\tr += 100\n}\n"},
+		{"chained logical operators as values", "t := func(n int, v bool) bool {\n\tobs(n)\n\treturn v\n}\nx := t(1, a > 1) || t(2, b > 1) || t(3, a == b)\ny := t(4, a >= 0) && t(5, b >= 0) && t(6, a != b)\nz := (a > 0 || b > 0) && (a < 2 || b < 2)\nw := !(a > 0 && b > 0) || a == 2\nif x {\n\tr += 1\n}\nif y {\n\tr += 10\n}\nif z {\n\tr += 100\n}\nif w {\n\tr += 1000\n}\n"},
 		{"increments", "x := a\nx++\nx++\nx--\ns := []int{1, 2}\ns[b&1]++\np := &x\n*p++\nr = x*100 + s[0]*10 + s[1]\n"},
 	}
 	for _, c := range cores {
